@@ -973,6 +973,10 @@ class state( dict ):
                     # increasing integers)
                     xformed	= list( enumerate( encoder( sym )))
                     assert len( xformed ) > 0
+                    if states.get( nxt ) is None and states[pre].get( True ) is None:
+                        # Into a "dead" state, and no (live) wildcard to be told apart from at a
+                        # later symbol: reject at the first encoded symbol, consuming none of them.
+                        xformed	= xformed[:1]
                     #log.debug( "%s <- %-10.10r: Encoded to %r", states[pre].name_centered(), sym, xformed )
                     if len( xformed ) > 1:
                         assert ( 1 <= len( machine.map[pre] ) <= 2 ), \
